@@ -275,8 +275,12 @@ func (p *Program) Render() string {
 
 // Req is a structured request/response fed both to the model and to the real library.
 type Req struct {
-	Method      string `json:"method"`
-	Path        string `json:"path"`
+	Method string `json:"method"`
+	Path   string `json:"path"`
+	// RawQuery is appended to the URI ("?"+RawQuery). It must consist of plain name=value pairs of
+	// unreserved characters joined by '&' (no escapes), so that its decoding is not in question; the
+	// library itself extracts these arguments into ARGS_GET (before the ones listed in Get).
+	RawQuery string `json:"raw_query,omitempty"`
 	Get         []KV   `json:"get,omitempty"`
 	Post        []KV   `json:"post,omitempty"`
 	Headers     []KV   `json:"headers,omitempty"`
